@@ -241,7 +241,7 @@ func (c *collector) finish() error {
 	ctx.Ev.Set("top_alloc", tops(c.topAlloc))
 	ctx.Ev.Set("calibration", map[string]any{
 		"worst_cpu_us": c.worstCpu, "worst_alloc_kib": c.worstAlloc, "worst_cpu_us_per_kib(len>8k)": c.worstCpuPerK, "worst_alloc_kib_per_kib(len>8k)": c.worstAlPK,
-		"envelope": map[string]int{"cpu_floor_us": cpuFloorUs, "cpu_per_kib_us": cpuPerKiBUs, "alloc_floor_kib": allocFloorKiB, "alloc_per_kib": allocPerKiB},
+		"envelope": map[string]int{"cpu_floor_us": cpuFloorUs, "cpu_per_kib_us": cpuPerKiBUs, "alloc_floor_kib": allocFloorKiB, "open_alloc_floor_kib": openFloorKiB, "alloc_per_kib": allocPerKiB},
 		"watchdog": c.pool.Watchdog.String(),
 	})
 	ctx.Ev.Set("records_by_outcome", c.byOutcome)
